@@ -4,7 +4,7 @@
 (* (Grp) and every recorded return value is compared with the set formulas  *)
 (* of StabSem.  Pivot choice, row order of standby rows and destabilizer     *)
 (* phases are not compared.                                                  *)
-EXTENDS Tableau, Clifford, GaussMat, TraceBase, FiniteSets
+EXTENDS Tableau, Circuit, GaussMat, TraceBase
 
 TRows(t) == DecRows(t.rows)
 TOK(t)  == /\ \A j \in 1..Len(t.rows) : WellFormed(t.rows[j], Len(t.rows[j]) - 1)
@@ -109,6 +109,7 @@ StepSemOK(S0, r0, e, n) ==
       [] e.kind = "rotm" -> TGrp(e.post) = {RotMasked(Dec(e.g), e.qs, s) : s \in S0} /\ e.post.r = r0
       [] e.kind = "tf" -> TGrp(e.post) = ImageGroup(S0, DecM(e.m), e.qs, n) /\ e.post.r = r0
       [] e.kind = "gate" -> TGrp(e.post) = ImageGroup(S0, GateMap(e.name), e.qs, n) /\ e.post.r = r0
+      [] e.kind = "circ" -> TGrp(e.post) = {Forward(DecProg(e.prog), s) : s \in S0} /\ e.post.r = r0
       [] e.kind = "copy" -> e.post = e.orig /\ e.disjoint = TRUE
       [] e.kind = "measure" ->
            LET sem == SemMeasureList(S0, DecL(e.obs), e.out, Len(e.obs)) IN
@@ -127,7 +128,7 @@ KindOK(kinds) == (Rec.op = "steps" /\ Has("entries")) =>
 StepsValid == (Rec.op \in {"steps", "walk"} /\ Has("entries")) => \A j \in 1..Len(Rec.entries) : TOK(Rec.entries[j].post)
 StepsRotOK == KindOK({"rot", "rotm"})
 StepsTransformOK == KindOK({"tf"})
-StepsGateOK == KindOK({"gate"})
+StepsGateOK == KindOK({"gate", "circ"})
 StepsMeasureOK == KindOK({"measure"})
 StepsPostselectOK == KindOK({"postselect"})
 StepsCopyOK == KindOK({"copy", "set_r"})
